@@ -49,6 +49,22 @@
 (*  svdrefl  A = Hv E diag(d) Hw, E the m x n partial permutation with     *)
 (*           rows shifted by k, Hv / Hw integer reflectors (q = v, r = w,  *)
 (*           all zero: identity): singular values (v'v)(w'w)|d_j|          *)
+(*  illcond  A = Hv E diag(d) Hw / 2^k with geometrically graded d         *)
+(*           (2^k, .., 1): dense, ILL-CONDITIONED with the exact 2-norm    *)
+(*           condition number max|d| / min|d| (p = d, q = v, r = w)        *)
+(*  hilbert  420 / (i + j - 1)  (the Hilbert matrix scaled to integers),   *)
+(*           symmetric positive definite, condition number from the exact  *)
+(*           inverse (closed form, verified by TLC: H Hinv = I)            *)
+(*  lauchli  the (n+1) x n Laeuchli matrix: a row of ones and eps I,       *)
+(*           eps = 2^-k (q = <<0>>: ones first, <<1>>: ones last); the     *)
+(*           classical example on which an orthogonalisation that is not   *)
+(*           backward stable loses orthogonality like u cond^2; condition  *)
+(*           number sqrt(n + eps^2) / eps, bounded by sqrt(n + 1) 2^k      *)
+(* For these classes the case carries the exact condition number and   *)
+(* the orthogonality tolerance of the promised orthogonal factors is       *)
+(* OrthK * u * cond * m (u = 2^-53), never looser than the general one:    *)
+(* the loss of orthogonality of a backward stable orthogonalisation grows  *)
+(* at most like u * cond, not like u * cond^2.                             *)
 (***************************************************************************)
 EXTENDS Rat, FiniteSets, SequencesExt, Json
 
@@ -158,11 +174,19 @@ Num(g_) ==
     [] g_.cls = "svdrefl" ->
          LET E == Mat(g_.m, g_.n, LAMBDA i, j : IF i = ((j - 1 + g_.k) % g_.m) + 1 THEN g_.p[j] ELSE 0)
          IN MMul(Refl(g_.q), MMul(E, Refl(g_.r)))
+    [] g_.cls = "illcond" ->
+         LET E == Mat(g_.m, g_.n, LAMBDA i, j : IF i = j THEN g_.p[j] ELSE 0)
+         IN MMul(Refl(g_.q), MMul(E, Refl(g_.r)))
+    [] g_.cls = "hilbert" -> Mat(g_.n, g_.n, LAMBDA i, j : 420 \div (i + j - 1))
+    [] g_.cls = "lauchli" ->
+         Mat(g_.m, g_.n, LAMBDA i, j : IF g_.q[1] = 0 THEN (IF i = 1 THEN Pow2(g_.k) ELSE IF i = j + 1 THEN 1 ELSE 0)
+                                       ELSE (IF i = g_.m THEN Pow2(g_.k) ELSE IF i = j THEN 1 ELSE 0))
 
 Den(g_) ==
   CASE g_.cls = "spd" -> Pow2(2 * g_.k * (g_.n - 1))
     [] g_.cls = "symrefl" -> Pow2(g_.k)
     [] g_.cls = "compan" -> Pow2(g_.k * (g_.n - 1))
+    [] g_.cls \in {"illcond", "lauchli"} -> Pow2(g_.k)
     [] OTHER -> 1
 
 (* ------------------------------------------------------------ parameter grids *)
@@ -258,13 +282,26 @@ SvdReflGens ==
        v \in ReflVecs(m), w \in (IF n >= 3 THEN ReflVecsSmall(n) ELSE ReflVecs(n)), k \in (IF Level = 2 /\ n = 1 THEN {0, 1} ELSE {1})}
     : m \in {mm \in Sizes : mm >= n}} : n \in Sizes}
 
+(* geometrically graded singular values 2^e, 2^(e/2), .., 1 *)
+GradedD(n, e) == TLCEval([j \in 1..n |-> IF j = 1 THEN Pow2(e) ELSE IF j = n THEN 1 ELSE Pow2(e \div 2) + (j - 2)])
+IllCondGens ==
+  UNION { UNION {
+    {G("illcond", m, n, GradedD(n, e), v, w, e) :
+       e \in (IF Level = 1 THEN {12, 20} ELSE {10, 14, 18, 22}),
+       v \in {TLCEval([i \in 1..m |-> 0]), TLCEval([i \in 1..m |-> 1])},
+       w \in {TLCEval([i \in 1..n |-> 1]), TLCEval([i \in 1..n |-> IF i = 1 THEN 1 ELSE IF i = 2 THEN -2 ELSE 0])}}
+    : m \in {mm \in Sizes : mm >= n /\ mm <= n + 1}} : n \in Sizes \ {1}}
+LauchliGens == {G("lauchli", n + 1, n, <<>>, <<v>>, <<>>, e) :
+                  n \in {nn \in Sizes : nn >= 2 /\ nn + 1 <= N}, v \in {0, 1}, e \in (IF Level = 1 THEN {10, 16, 20} ELSE {8, 10, 13, 16, 20, 22})}
+HilbertGens == {G("hilbert", n, n, <<>>, <<>>, <<>>, 0) : n \in Sizes \ {1}}
+
 WellFormed(g_) ==
   /\ g_.m >= g_.n /\ g_.m <= N /\ g_.n <= N
   /\ g_.cls = "dense" => (g_.q[1] <= g_.m /\ g_.q[2] <= g_.n /\ (g_.r[1] = 1 => g_.n > 1)
                           /\ (Level = 1 => (g_.q[1] = 0 \/ g_.q[2] = 0 \/ g_.q[1] = g_.q[2])))
 
 Gens == {x \in SpdGens \cup SymReflGens \cup CompanGens \cup TriangGens \cup BidiagGens \cup TridiagGens
-                 \cup HessGens \cup DenseGens \cup SvdReflGens : WellFormed(x)}
+                 \cup HessGens \cup DenseGens \cup SvdReflGens \cup IllCondGens \cup HilbertGens \cup LauchliGens : WellFormed(x)}
 
 (* ------------------------------------------------------------ exact knowledge *)
 RSeqOfInts(s, den) == TLCEval([i \in 1..Len(s) |-> Rat(s[i], den)])
@@ -285,12 +322,13 @@ EigCRe(g_) ==
   IF g_.cls = "compan" THEN Dup(TLCEval([i \in 1..(Len(g_.p) \div 2) |-> Rat(0 - g_.p[2 * i - 1], 2)])) ELSE <<>>
 
 SvKnown(g_) ==
-  \/ g_.cls \in {"symrefl", "svdrefl"}
+  \/ g_.cls \in {"symrefl", "svdrefl", "illcond"}
   \/ g_.cls \in {"triang", "bidiag"} /\ AllZero(g_.q)
 SingVals(g_) ==
   CASE g_.cls = "symrefl" -> LET s == ReflScale(g_.p) IN TLCEval([i \in 1..g_.n |-> Rat(s * s * Abs(g_.q[i]), Pow2(g_.k))])
     [] g_.cls = "svdrefl" -> LET s == ReflScale(g_.q) * ReflScale(g_.r) IN TLCEval([i \in 1..g_.n |-> RInt(s * Abs(g_.p[i]))])
     [] g_.cls \in {"triang", "bidiag"} /\ AllZero(g_.q) -> TLCEval([i \in 1..g_.n |-> RInt(Abs(g_.p[i]))])
+    [] g_.cls = "illcond" -> LET s == ReflScale(g_.q) * ReflScale(g_.r) IN TLCEval([i \in 1..g_.n |-> Rat(s * Abs(g_.p[i]), Pow2(g_.k))])
     [] OTHER -> <<>>
 
 CholKnown(g_) == g_.cls = "spd"
@@ -309,7 +347,7 @@ LdlD(g_) == IF ~CholKnown(g_) THEN <<>> ELSE
 
 (* ------------------------------------------------------------ input classes *)
 Square(g_) == g_.m = g_.n
-Symmetric(g_) == Square(g_) /\ (g_.cls \in {"spd", "symrefl", "tridiag"} \/ IsSym(Num(g_)))
+Symmetric(g_) == Square(g_) /\ (g_.cls \in {"spd", "symrefl", "tridiag", "hilbert"} \/ IsSym(Num(g_)))
 DiagDominantPos(A) == \A i \in 1..Rows(A) : A[i][i] > SumInts(TLCEval([j \in 1..Cols(A) |-> IF j = i THEN 0 ELSE Abs(A[i][j])]))
 SPD(g_) ==
   \/ g_.cls = "spd"
@@ -319,11 +357,38 @@ FullColRank(g_) ==
   CASE g_.cls = "spd" -> TRUE
     [] g_.cls = "symrefl" -> \A i \in 1..g_.n : g_.q[i] # 0
     [] g_.cls = "svdrefl" -> \A i \in 1..g_.n : g_.p[i] # 0
+    [] g_.cls \in {"illcond", "hilbert", "lauchli"} -> TRUE
     [] g_.cls = "compan" -> PolyOf(g_)[1] # 0
     [] g_.cls = "triang" -> \A i \in 1..g_.n : g_.p[i] # 0
     [] OTHER -> LET A == Num(g_) IN Det(MMul(Tr(A), A)) # 0              \* Gram determinant (small entries)
 (* non-symmetric with a repeated eigenvalue: possibly defective, eigenvalues only accurate to a root of the unit roundoff *)
 Loose(g_) == EigKnown(g_) /\ ~Symmetric(g_) /\ HasRepeat(EigReal(g_) \o EigCRe(g_))
+
+(* ------------------------------------------------------------ exact condition numbers *)
+RECURSIVE Binom(_, _)
+Binom(a, b) == IF b < 0 \/ b > a THEN 0 ELSE IF b = 0 THEN 1 ELSE (Binom(a - 1, b - 1) * a) \div b
+(* inverse of the n x n Hilbert matrix (integers, closed form) *)
+HilbertInv(n) == Mat(n, n, LAMBDA i, j : Sgn(i + j) * (i + j - 1) * Binom(n + i - 1, n - j) * Binom(n + j - 1, n - i)
+                                           * Binom(i + j - 2, i - 1) * Binom(i + j - 2, i - 1))
+HilbertR(n) == TLCEval([i \in 1..n |-> TLCEval([j \in 1..n |-> Rat(1, i + j - 1)])])
+MaxAbsS(q) == MaxInts(TLCEval([i \in 1..Len(q) |-> Abs(q[i])]))
+MinAbs(q) == MaxAbsS(q) - MaxInts(TLCEval([i \in 1..Len(q) |-> MaxAbsS(q) - Abs(q[i])]))
+CondKnown(g_) == g_.cls \in {"illcond", "hilbert", "lauchli"}
+(* the condition number as the symbolic term  a * b * 2^e2  (sqrt = FALSE) or  sqrt(a * b) * 2^e2  (sqrt = TRUE): *)
+(*  lauchli  sqrt(n + 1) * 2^k  >=  sqrt(n + eps^2) / eps   (upper bound, exact to a factor sqrt(1 + 1/n))        *)
+(*  illcond  2-norm condition number  max|d| * (1 / min|d|)                                                      *)
+(*  hilbert  Frobenius condition number  sqrt(||H||_F^2 * ||H^-1||_F^2)   (scaling by 420 cancels)               *)
+CondTerm(g_) ==
+  CASE g_.cls = "illcond" ->
+         [a |-> RInt(MaxInts(TLCEval([i \in 1..g_.n |-> Abs(g_.p[i])]))),
+          b |-> Rat(1, MinAbs(g_.p)), sqrt |-> FALSE, e2 |-> 0]
+    [] g_.cls = "hilbert" ->
+         [a |-> RSumSeq(TLCEval([t \in 1..(g_.n * g_.n) |-> LET x == HilbertR(g_.n)[((t - 1) \div g_.n) + 1][((t - 1) % g_.n) + 1] IN RMul(x, x)])),
+          b |-> RInt(SumSq(HilbertInv(g_.n))), sqrt |-> TRUE, e2 |-> 0]
+    [] g_.cls = "lauchli" -> [a |-> RInt(g_.n + 1), b |-> ROne, sqrt |-> TRUE, e2 |-> g_.k]
+    [] OTHER -> [a |-> ROne, b |-> ROne, sqrt |-> FALSE, e2 |-> 0]
+(* safety factor of the orthogonality tolerance  OrthK * 2^-53 * cond * m  *)
+OrthK == 32
 
 (* "sufficiently positive definite" for the forced-positive-definite LDL (Gill, Murray, Wright: the            *)
 (* modification vanishes when every pivot d_j of the plain LDL dominates (theta_j / beta)^2, theta_j the        *)
@@ -376,10 +441,10 @@ Focus(g_, rt) ==
   CASE rt \in {"cholesky", "ldl"} -> TRUE
     [] rt = "ldl_forcepd" -> g_.cls \in {"spd", "symrefl", "tridiag"}
     [] rt \in {"msqrt", "msqrtinv"} -> g_.cls \in {"symrefl", "tridiag"} \/ (g_.cls = "spd" /\ g_.k <= 1)
-    [] rt = "gramschmidt" -> g_.cls \in {"dense", "svdrefl", "bidiag", "triang"}
-    [] rt \in {"bidiag", "svd"} -> g_.cls \in {"dense", "svdrefl", "bidiag"} \/ (Level = 2 /\ g_.cls \in {"symrefl", "triang", "compan", "hess"})
-    [] rt \in {"tridiag", "qr_sym", "eigen_sym"} -> g_.cls \in {"symrefl", "tridiag", "spd"} \/ (g_.cls \in {"triang", "dense"} /\ Symmetric(g_))
-    [] rt \in {"hessenberg", "qr"} -> g_.cls \in {"compan", "triang", "hess", "dense", "symrefl", "bidiag", "tridiag"}
+    [] rt = "gramschmidt" -> g_.cls \in {"dense", "svdrefl", "bidiag", "triang", "illcond", "hilbert", "lauchli"}
+    [] rt \in {"bidiag", "svd"} -> g_.cls \in {"dense", "svdrefl", "bidiag", "illcond", "hilbert", "lauchli"} \/ (Level = 2 /\ g_.cls \in {"symrefl", "triang", "compan", "hess"})
+    [] rt \in {"tridiag", "qr_sym", "eigen_sym"} -> g_.cls \in {"symrefl", "tridiag", "spd", "hilbert"} \/ (g_.cls \in {"triang", "dense"} /\ Symmetric(g_))
+    [] rt \in {"hessenberg", "qr"} -> g_.cls \in {"compan", "triang", "hess", "dense", "symrefl", "bidiag", "tridiag", "illcond", "hilbert"}
     [] rt = "eigen" -> g_.cls \in {"compan", "triang", "symrefl", "bidiag", "tridiag"}
 RoutinesOf(g_) == SetToSeq({rt \in RoutineNames : Admissible(g_, rt) /\ Focus(g_, rt)})
 
@@ -389,6 +454,7 @@ Case(g_) ==
    sym |-> Symmetric(g_), spd |-> Square(g_) /\ SPD(g_), fullrank |-> FullColRank(g_), loose |-> Loose(g_),
    eigk |-> EigKnown(g_), eig |-> EigReal(g_), cre |-> EigCRe(g_),
    svk |-> SvKnown(g_), sv |-> SingVals(g_),
+   condk |-> CondKnown(g_), cond |-> CondTerm(g_), orthk |-> OrthK,
    cholk |-> CholKnown(g_), chol |-> CholL(g_), ldll |-> LdlL(g_), ldld |-> LdlD(g_), suffpd |-> SuffPD(g_),
    routines |-> RoutinesOf(g_)]
 
@@ -427,6 +493,17 @@ KnowledgeOK ==
        /\ \A i \in 1..Len(g.q) : Det(MAdd(CompanBase(g), MScale(0 - g.q[i], Ident(g.n)))) = 0
   /\ g.cls = "svdrefl" =>
        LET s == ReflScale(g.q) * ReflScale(g.r) IN SumSq(Num(g)) = s * s * Dot(g.p, g.p)
+  /\ g.cls = "illcond" =>                                   \* both reflectors are scaled orthogonal matrices; d is graded and non-zero
+       /\ MMul(Refl(g.q), Refl(g.q)) = MScale(ReflScale(g.q) * ReflScale(g.q), Ident(g.m))
+       /\ MMul(Refl(g.r), Refl(g.r)) = MScale(ReflScale(g.r) * ReflScale(g.r), Ident(g.n))
+       /\ \A i \in 1..g.n : g.p[i] > 0 /\ g.p[i] <= g.p[1]
+       /\ MinAbs(g.p) = 1 /\ g.p[1] = Pow2(g.k)
+  /\ g.cls = "lauchli" =>                                   \* A'A = J + eps^2 I  (numerators: 4^k J + I), eigenvalues n + eps^2 and eps^2
+       g.k <= 14 => MMul(Tr(Num(g)), Num(g)) = Mat(g.n, g.n, LAMBDA i, j : Pow2(g.k) * Pow2(g.k) + (IF i = j THEN 1 ELSE 0))
+  /\ g.cls = "hilbert" =>
+       /\ RMatMul(HilbertR(g.n), TLCEval([i \in 1..g.n |-> TLCEval([j \in 1..g.n |-> RInt(HilbertInv(g.n)[i][j])])]))
+            = TLCEval([i \in 1..g.n |-> TLCEval([j \in 1..g.n |-> IF i = j THEN ROne ELSE RZero])])
+       /\ \A i, j \in 1..g.n : Num(g)[i][j] * (i + j - 1) = 420
   /\ Symmetric(g) => IsSym(Num(g))
   /\ (Square(g) /\ SPD(g) /\ g.n <= 3 /\ g.k = 0 /\ g.cls # "symrefl") => \A kk \in 1..g.n : Det(Mat(kk, kk, LAMBDA i, j : Num(g)[i][j])) > 0   \* Sylvester
   /\ Rows(Num(g)) = g.m /\ Cols(Num(g)) = g.n
